@@ -28,6 +28,11 @@ def main():
         mod = importlib.import_module(f"vlib.props.{prop.lower()}")
         import molgri
         REC.extra["molgri_file"] = molgri.__file__
+        state = os.environ.get("VERIF_PROCESS_STATE", "default")
+        REC.classes[f"process_state={state}"] += 1
+        if state == "hostile":
+            import numpy as np
+            np.set_printoptions(precision=2, threshold=4, edgeitems=1, linewidth=30, suppress=True)
         if spec.get("__replay__"):
             mod.replay(spec["case"])
         else:
